@@ -7,7 +7,13 @@ int main(int argc, char* argv[]){
 		std::cerr << "Usage: photospline-inspect spline_file" << std::endl;
 		return(1);
 	}
-	photospline::splinetable<> spline(argv[1]);
+	photospline::splinetable<> spline;
+	try{
+		spline.read_fits(argv[1]);
+	}catch(std::exception& ex){
+		std::cerr << ex.what() << std::endl;
+		return(1);
+	}
 	std::cout << spline.get_ndim() << " dimensional spline" << std::endl;
 	std::cout << "Spline orders: ";
 	for(size_t i=0; i<spline.get_ndim(); i++)
